@@ -379,10 +379,25 @@ where
         // Sample D base elements (matches native sample_algebra_element)
         let coeffs: Vec<_> = (0..EF::DIMENSION).map(|_| self.sample(circuit)).collect();
 
-        // Recompose into extension element
-        circuit
-            .recompose_base_coeffs_to_ext::<BF>(&coeffs)
-            .expect("recomposition should succeed")
+        // Recompose into extension element. With a base-width (D = 1) permutation inside a
+        // higher-degree circuit the sampled coefficients are outputs of the permutation table,
+        // and the recompose table does not read its coefficient columns from the WitnessChecks
+        // bus: recompose through the ALU, whose operands are bus reads, so that the challenge is
+        // tied to the permutation outputs.
+        let perm_d = self
+            .config
+            .as_poseidon2()
+            .map(|c| c.d())
+            .or_else(|| self.config.as_poseidon1().map(|c| c.d()));
+        if perm_d == Some(1) && EF::DIMENSION > 1 {
+            circuit
+                .recompose_base_coeffs_to_ext_via_alu::<BF>(&coeffs)
+                .expect("recomposition should succeed")
+        } else {
+            circuit
+                .recompose_base_coeffs_to_ext::<BF>(&coeffs)
+                .expect("recomposition should succeed")
+        }
     }
 
     fn sample_bits(
